@@ -3,7 +3,7 @@
 tier=${1:-quick}; shift
 seeds=${@:-1 2 3 4 5 6 7 8}
 for s in $seeds; do
-  for p in C08 C11 C12 C13 C17 C20; do
+  for p in C06 C08 C11 C12 C13 C17 C20; do
     out=$(VERIF_SEED=$s ./check $p --tier $tier 2>&1); code=$?
     echo "seed=$s $p exit=$code $(echo "$out" | tail -1)"
     if [ $code -ne 0 ]; then echo "$out" | grep -A1 -E "VIOLATION|HARNESS|KNOWN" | head -20; fi
